@@ -43,6 +43,19 @@ def f_gate(case):
         g = C.gate_lib(gd, be)
         if case['compile']:
             g.compile()
+        if case.get('reject') is not None:
+            # the gate first receives calls the library rejects (a generator / map that is no Pauli / CliffordMap): they must raise and leave the gate as it was
+            before = {n: B.snapshot(getattr(g, n)) for n in ('generator', 'forward_map', 'backward_map')}
+            bad = ['XY', 5, None, [1, 2]][case['reject'] % 4]
+            for setter in ('set_generator', 'set_forward_map', 'set_backward_map')[:1 + case['reject'] % 3]:
+                try:
+                    getattr(g, setter)(bad)
+                    raise Mismatch('%s(%r) was accepted' % (setter, bad), 'bad-definition-accepted')
+                except Mismatch:
+                    raise
+                except Exception:
+                    pass
+            check({n: B.snapshot(getattr(g, n)) for n in ('generator', 'forward_map', 'backward_map')} == before, 'a rejected set_* call changed the gate %s' % gd, 'rejected-call-changed-gate')
         pre = {n: B.snapshot(getattr(g, n)) for n in ('generator', 'forward_map', 'backward_map') if getattr(g, n) is not None}
         _round_trip(be, g, case['input'], N, 'gate %s' % gd, order)
         for n, s in pre.items():
@@ -55,7 +68,8 @@ def f_gate(case):
 
 def st_gatecase(be, hiN, kinds=None):
     return st.integers(1, hiN).flatmap(lambda N: st.fixed_dictionaries(
-        {'be': st.just(be), 'N': st.just(N), 'gate': gen.st_gate(N, kinds), 'compile': st.booleans(), 'input': c09.st_input(N)}))
+        {'be': st.just(be), 'N': st.just(N), 'gate': gen.st_gate(N, kinds), 'compile': st.booleans(), 'input': c09.st_input(N),
+         'reject': st.sampled_from([None, None, 0, 1, 2, 3, 4, 5])}))
 
 
 def f_circuit(case):
